@@ -4,6 +4,7 @@ import inspect
 import selectors
 from typing import Any, Callable, Optional, Union
 from . import _logging
+from ._exceptions import WebSocketConnectionClosedException
 from ._socket import send
 
 
@@ -118,6 +119,8 @@ class WrappedDispatcher:
         self.ping_timeout and self.timeout(self.ping_timeout, check_callback)
 
     def send(self, sock: socket.socket, data: Union[str, bytes]) -> None:
+        if not sock:
+            raise WebSocketConnectionClosedException("socket is already closed.")
         self.dispatcher.buffwrite(sock, data, send, self.handleDisconnect)
         return len(data)
 
